@@ -138,6 +138,7 @@ for _p in ['C01', 'C02', 'C03', 'C04', 'C05', 'C07', 'C08', 'C09', 'C10', 'C11',
 
 # One-line statement of the clause each later rule decides; appended to the property text for every property the rule serves.
 RULE_CLAUSES = {
+    'SIZEDINDEX': 'a vector created with a run-time size is subscripted with a constant only where that size structurally covers the constant or is tested (SIZEDINDEX)',
     'USEMOVE': 'no local is read after it was moved from (USEMOVE)',
     'KEYFIELDS': 'every field the equality of a hash key compares is also hashed, and vice versa (KEYFIELDS)',
     'ADDRKEY': 'a cache key derived from an object is taken from the object the cached value was computed for (ADDRKEY)',
